@@ -590,7 +590,7 @@ def rt_traces(ctx, n, maxlen):
         if err:
             ctx.fail({"capacity": cap, "rt_ops": ops, "error": err}, "LFUCache with report types deviates from a bounded LFU map: " + err)
         cops = coq_rops(ops)
-        if len(run_impl_rt.gcodes) == len(ops) and (ctx.thorough or i < 60):
+        if len(run_impl_rt.gcodes) == len(ops) and (ctx.thorough or i < 40):
             hcases.append(("rt_heap_sx %d %s" % (cap, cops), [outs, list(run_impl_rt.gcodes), list(run_impl_rt.graph)],
                            {"capacity": cap, "rt_ops": ops, "what": "pointer graph (contents as checksums) of the real objects after every step vs heap model"}))
         cases.append(("rt_outs_sx %d %s" % (cap, cops), [outs, states[-1] if states else []], {"capacity": cap, "rt_ops": ops}))
@@ -827,7 +827,13 @@ class HeapMonitor:
         self.calls = 0
         self.outside = []
         self.benign = []
+        self.events = None              # when a list: the heap WRITES of the current call, in order
+        self.nid = {"CacheNode": 0, "FreqNode": 0}
         mon = self
+
+        def event(e):
+            if mon.events is not None and getattr(mon.tl, "active", False) and not getattr(mon.tl, "constructing", 0):
+                mon.events.append(e)
 
         def seen(obj_lock, what):
             if getattr(mon.tl, "active", False):
@@ -842,6 +848,17 @@ class HeapMonitor:
             fields = NODE_FIELDS[kind]
 
             class Rec(base):
+                def __init__(self, *a, **k):
+                    if kind != "LFUCache":
+                        object.__setattr__(self, "_vid", mon.nid[kind])     # = the model's allocation counter
+                        mon.nid[kind] += 1
+                        event(["new" + kind[0], object.__getattribute__(self, "_vid")])
+                    mon.tl.constructing = getattr(mon.tl, "constructing", 0) + 1
+                    try:
+                        base.__init__(self, *a, **k)
+                    finally:
+                        mon.tl.constructing -= 1
+
                 def __getattribute__(self, name):
                     if name in fields:
                         seen(lock_of(self), kind + "." + name + " (read)")
@@ -850,6 +867,7 @@ class HeapMonitor:
                 def __setattr__(self, name, value):
                     if name in fields:
                         seen(lock_of(self), kind + "." + name + " (write)")
+                        event("head" if kind == "LFUCache" else [kind[0], object.__getattribute__(self, "_vid"), name])
                     object.__setattr__(self, name, value)
             Rec.__name__ = base.__name__
             return Rec
@@ -866,6 +884,10 @@ class HeapMonitor:
 
             def f(self, *a, **k):
                 seen(mon.cur_lock[0], "key table " + name)
+                if name == "__setitem__":
+                    event(["dset", getattr(a[0], "key_id", a[0])])
+                elif name == "pop":
+                    event(["dpop", getattr(a[0], "key_id", a[0])])
                 return orig(self, *a, **k)
             return f
         for name in ("__getitem__", "__setitem__", "__contains__", "pop", "__len__", "__delitem__", "get", "items", "values", "keys", "__iter__"):
@@ -885,6 +907,7 @@ class HeapMonitor:
         c.lock = lock
         c.cache = self.Table()
         self.cur_lock[0] = lock
+        self.nid = {"CacheNode": 0, "FreqNode": 0}
         return c
 
     def call(self, c, op, key=None):
@@ -925,6 +948,34 @@ def lock_monitor(ctx, nseq):
     DISCIPLINE["heap_accesses_observed"] += mon.accesses
     DISCIPLINE["heap_accesses_outside_lock"] += len(mon.outside)
     DISCIPLINE["reads_of_immutable_fields_outside_lock"] += len(mon.benign)
+
+
+def step_order(ctx, n, maxlen):
+    """EXTENSION "StepOrder" (recorded, never a violation: an equivalent reordering of independent
+    writes is not a defect): the ORDER of the heap writes of every single get / set on the real
+    objects - field writes of CacheNode / FreqNode (object = allocation number), allocations,
+    key-table writes, freq_link_head writes - against the write steps of the step program
+    op_prog o of LfuConcModel.v run from the same state (wsteps_sx): a per-step correspondence
+    of the 'acquire; body; release' shape, not only of the resulting heap."""
+    cases = []
+    with HeapMonitor() as mon:
+        for i in range(n):
+            cap, ops = gen_random(ctx.rng, maxlen)
+            c = mon.cache(cap, _RecLock())
+            per_op = []
+            for op in ops:
+                mon.events = []
+                mon.call(c, op)
+                per_op.append(mon.events)
+                mon.events = None
+            ctx.seen(("step_order", cap, tuple(ops)), nontrivial=len(ops) > 3)
+            ctx.count("step_order:traces")
+            ctx.count("step_order:writes", sum(len(e) for e in per_op))
+            cases.append(("wsteps_sx %d %s" % (cap, coq_ops(ops)), per_op,
+                          {"kind": "step_order", "capacity": cap, "ops": ops, "what": "order of heap writes per call: real objects vs step program"}))
+    with ctx.extension("StepOrder"):
+        ctx.coq_cases("lfu_step_order", "From DD Require Import Lfu.LfuModel Lfu.LfuShow Lfu.LfuHeapModel Lfu.LfuConcModel Lfu.LfuConcShow.\nLocal Open Scope Z_scope.",
+                      cases, shard=20, label="write_order_per_call_vs_step_program")
 
 
 # what the recording monitors saw in this run (written to the evidence by run())
@@ -1282,6 +1333,119 @@ def forced_schedules(ctx, only=None):
                   cases, shard=50, label="threads_forced_schedules_vs_interleaving_semantics")
 
 
+# ---- lock-free `key in cache` and report-type sets as calls of the interleaving semantics ----
+
+# (name, capacity, prefix, thread 1 (its first call parks INSIDE the critical section on key 1000),
+#  thread 2: lock-free lookups first (they run while thread 1 holds the lock), then locking calls; expected lookups)
+FORCED_READERS = [
+    ("lookups-during-evicting-set", 2, [("set", 1, None, 10), ("set", 2, None, 20)], [("set", 1000, None, 7)],
+     [("contains", 1), ("contains", 1000), ("contains", 2), ("get", 1)], [True, False, True]),
+    ("report-type-sets-and-lookups", 3, [("set", 1, 1, 10)], [("set", 1000, 2, 5), ("get", 1)],
+     [("contains", 1), ("contains", 3), ("set", 1, 1, 11), ("set", 3, None, 3), ("set", 3, 1, 4), ("get", 3), ("contains", 3)], [True, False]),
+    ("lookups-during-missing-get", 1, [("set", 1, None, 10)], [("get", 1000)], [("contains", 1), ("contains", 1000), ("set", 2, 3, 9), ("contains", 1)], [True, False]),
+]
+
+
+def coq_calls(ops):
+    out = []
+    for o in ops:
+        if o[0] == "get":
+            out.append("CGet %s" % core.coq_Z(o[1]))
+        elif o[0] == "contains":
+            out.append("CContains %s" % core.coq_Z(o[1]))
+        else:
+            out.append("CSet %s %s %s" % (core.coq_Z(o[1]), "None" if o[2] is None else "(Some %s)" % core.coq_Z(o[2]), core.coq_Z(o[3])))
+    return "[" + "; ".join(out) + "]"
+
+
+def _do_call(c, o, key=None):
+    """one call of the real cache -> (locking?, observable result)"""
+    from deepdiff.helper import not_found
+    k = o[1] if key is None else key
+    if o[0] == "contains":
+        return False, (k in c)
+    if o[0] == "get":
+        r = c.get(k)
+        return True, ("not_found" if r is not_found else ["got", snap(r)])
+    try:
+        c.set(k, report_type=RT_NAMES[o[2]] if o[2] is not None else None, value=o[3])
+        return True, "done"
+    except TypeError:
+        return True, "raised"
+
+
+def forced_readers(ctx):
+    """Lock-free `key in cache` lookups (and report-type sets) overlapping another thread's critical
+    section, against the interleaving semantics LfuConcGModel.v (gconc_sx): lock log, results of the
+    locking calls, results of the lock-free lookups, pointer graph with content checksums.
+    Direct oracle: nothing raises, the structure stays consistent, the lookups made while thread 1
+    is parked at the very start of its critical section see the state before it."""
+    from deepdiff.lfucache import LFUCache
+    cases = []
+    for name, cap, prefix, ops1, ops2, exp_lookups in FORCED_READERS:
+        c = LFUCache(cap)
+        lk = _LogLock()
+        c.lock = lk
+        outs, obs, errs = [[], [], []], [[], [], []], []
+        me = threading.get_ident()
+        for o in prefix:
+            lk.who[me] = (0, o)
+            outs[0].append(_do_call(c, o)[1])
+        pk = ParkKey(ops1[0][1])
+        reads_done = threading.Event()
+
+        def work(idx, ops, first_key):
+            try:
+                for i, o in enumerate(ops):
+                    if idx == 2 and o[0] != "contains":
+                        reads_done.set()
+                    lk.who[threading.get_ident()] = (idx, o)
+                    locking, r = _do_call(c, o, key=first_key if i == 0 else None)
+                    (outs if locking else obs)[idx].append(r)
+                reads_done.set()
+            except BaseException as e:
+                errs.append("thread %d: %s: %s" % (idx, type(e).__name__, e))
+                reads_done.set()
+        t1 = threading.Thread(target=work, args=(1, ops1, pk))
+        t1.start()
+        if not pk.inside.wait(60):
+            errs.append("thread 1 never reached its parking point")
+        t2 = threading.Thread(target=work, args=(2, ops2, None))
+        t2.start()
+        reads_done.wait(60)
+        t2.join(0.05)
+        pk.release.set()
+        t1.join(60)
+        t2.join(60)
+        log = [[w[0], (["get", w[1][1]] if w[1][0] == "get" else ["set", w[1][1], ("Some", w[1][2]) if w[1][2] is not None else None, w[1][3]])]
+               for w in lk.log if w is not None]
+        ctx.seen(("forced_readers", name), nontrivial=True)
+        ctx.count("threads:forced_readers")
+        case = {"kind": "forced_readers", "name": name, "capacity": cap, "prefix": prefix, "thread1": ops1, "thread2": ops2, "lock_acquisition_order": log}
+        graph = None
+        try:
+            walk(c)
+            graph = graph_ints(c, limit=200, content=content_code)
+        except Exception as e:
+            errs.append("structure inconsistent after the threads returned: %s: %s" % (type(e).__name__, e))
+        lead = obs[2][:len(exp_lookups)]
+        if errs:
+            ctx.fail(dict(case, errors=errs), "calls overlapping a critical section raised or left the cache inconsistent: " + errs[0])
+        elif lead != exp_lookups:
+            ctx.fail(dict(case, lookups=lead, expected=exp_lookups),
+                     "`key in cache` during another thread's critical section (parked before its first change) returned %r, the state before it gives %r" % (lead, exp_lookups))
+        if graph is not None:
+            order = [t for t, _ in log[len(prefix):]]
+            blocks = [(0, 3000), (1, 2), (2, 3000)] + [(t, 3000) for t in order] + [(1, 3000), (2, 3000), (1, 3000), (2, 3000)]
+            if order and order[0] != 1:
+                blocks = [(0, 3000)] + [(t, 3000) for t in order] + [(1, 3000), (2, 3000)]
+            expr = "gconc_sx %d [%s] [%s]" % (cap, "; ".join(coq_calls(pr) for pr in (prefix, ops1, ops2)),
+                                              "; ".join("(%d, %d)%%nat" % b for b in blocks))
+            cases.append((expr, [True, False, log, outs, obs, graph], dict(case, what="real threads vs interleaving semantics with lock-free lookups")))
+    ctx.coq_cases("lfu_forced_readers", "From DD Require Import Lfu.LfuModel Lfu.LfuRtModel Lfu.LfuConcModel Lfu.LfuConcGModel Lfu.LfuConcGShow.\nLocal Open Scope Z_scope.",
+                  cases, shard=50, label="threads_lock_free_lookups_vs_interleaving_semantics")
+
+
 def linearizable_threads(ctx, rounds, nthreads=8, keys_per_thread=3, nops=250):
     """Each thread owns disjoint keys; capacity >= number of keys, so nothing can be evicted and the
     result is independent of the interleaving: (1) every get by the owner returns the owner's last
@@ -1357,23 +1521,25 @@ def discipline_note(ctx):
 
 
 ALL_MODEL_FILES = ("From DD Require Import Lfu.LfuModel Lfu.LfuShow Lfu.LfuHeapModel Lfu.LfuHeapShow Lfu.LfuRtModel Lfu.LfuRtShow "
-                   "Lfu.LfuAuxModel Lfu.LfuAuxShow Lfu.LfuConcModel Lfu.LfuConcShow.")
+                   "Lfu.LfuAuxModel Lfu.LfuAuxShow Lfu.LfuConcModel Lfu.LfuConcShow Lfu.LfuConcGModel Lfu.LfuConcGShow.")
 
 
 def run(ctx):
     ctx.ensure_built(ALL_MODEL_FILES)       # one make for every model file the streams import
     exhaustive(ctx, 3, 7 if ctx.thorough else 6)
-    random_traces(ctx, 1500 if ctx.thorough else 300, 200)
-    heap_traces(ctx, 800 if ctx.thorough else 160, 200 if ctx.thorough else 80)
-    rt_traces(ctx, 1000 if ctx.thorough else 200, 60)
-    aux_observers(ctx, 400 if ctx.thorough else 80, 40)
-    nonint_keys(ctx, 600 if ctx.thorough else 120, 60)
+    random_traces(ctx, 1500 if ctx.thorough else 220, 200)
+    heap_traces(ctx, 800 if ctx.thorough else 120, 200 if ctx.thorough else 80)
+    rt_traces(ctx, 1000 if ctx.thorough else 150, 60)
+    aux_observers(ctx, 400 if ctx.thorough else 50, 40)
+    nonint_keys(ctx, 600 if ctx.thorough else 80, 60)
     with ctx.extension("DummyLFU"):         # not an LFU cache: outside the property's text
         dummy_lfu(ctx, 40 if ctx.thorough else 8)
     lock_monitor(ctx, 300 if ctx.thorough else 60)
+    step_order(ctx, 200 if ctx.thorough else 30, 30)
     threaded(ctx, 12 if ctx.thorough else 3)
     forced_overlap(ctx)
     forced_schedules(ctx)
+    forced_readers(ctx)
     linearizable_threads(ctx, 10 if ctx.thorough else 3)
     discipline_note(ctx)
     ctx.sample({"exhaustive_example": {"capacity": 2, "ops": ops_of((1, 3, 0, 5, 2))}})
@@ -1387,6 +1553,8 @@ def replay(ctx, data):
         print("replay: contents=%r expected=%r errors=%r" % (view, exp, errs))
         if errs or view != exp:
             ctx.fail(case, "lost or wrong update under concurrency: contents %r, every sequential order gives %r" % (view, exp))
+    elif case.get("kind") == "forced_readers":
+        forced_readers(ctx)
     elif case.get("kind") == "forced_schedule":
         forced_schedules(ctx, only=case.get("name"))
     elif case.get("kind") == "linearizable_threads":
